@@ -345,3 +345,15 @@ Proof.
   apply in_map_iff in Hin. destruct Hin as ([[[[pre tmpl] prep] r] pps] & <- & Hin). apply mk_step_safe.
   rewrite Forall_forall in Hw. apply (Hw _ Hin).
 Qed.
+
+(* ---------- grpc gun ---------- *)
+Lemma instance_grpc_survives : forall rs,
+  snd (instance_run (map grpc_shoot rs)) = false /\ length (fst (instance_run (map grpc_shoot rs))) = length rs.
+Proof.
+  induction rs as [|r rs [A B]]; [split; reflexivity|].
+  cbn [map instance_run grpc_shoot]. destruct (instance_run (map grpc_shoot rs)) as [rest failed].
+  cbn in *. subst. split; [reflexivity|]. rewrite B. reflexivity.
+Qed.
+
+Lemma grpc_bind_ignores_target : forall w a b, grpc_bind w a = grpc_bind w b.
+Proof. reflexivity. Qed.
